@@ -576,7 +576,7 @@ func TestPropSignatures(t *testing.T) {
 			c.Time = rapid.SampledFrom([]string{"start-1", "end+1", "start-ns", "end+ns", "end+ms"}).Draw(t, "badtime")
 		case 2:
 			c.Tamper.Kind = "none"
-			c.Signers[rapid.IntRange(0, ns-1).Draw(t, "longidx")].Duration = rapid.SampledFrom([]int64{7*24*3600 + 1, 8 * 24 * 3600}).Draw(t, "long")
+			c.Signers[rapid.IntRange(0, ns-1).Draw(t, "longidx")].Duration = rapid.SampledFrom([]int64{7*24*3600 + 1, 7*24*3600 + 1, 8 * 24 * 3600, 8 * 24 * 3600, 1<<31 - 1, 1 << 31, 1 << 32, 1<<32 + 3600, 1 << 33, 9223372036}).Draw(t, "long")
 		default:
 			c.Tamper = Tamper{
 				Kind:  rapid.SampledFrom([]string{"body-flip", "body-trunc", "body-extend", "status", "hdr-add", "hdr-remove", "hdr-edit", "reencode", "signed-flip", "sig-flip", "sig-append", "authority", "auth-swap", "auth-samekey-cert"}).Draw(t, "tamper"),
@@ -586,6 +586,10 @@ func TestPropSignatures(t *testing.T) {
 				N:     rapid.IntRange(0, 1000).Draw(t, "n"),
 				Value: rapid.SampledFrom([]string{"", "x", "evil"}).Draw(t, "value"),
 			}
+		}
+		if rapid.IntRange(0, 7).Draw(t, "far-date") == 0 {
+			// dates around 2^31 / 2^32 / 2^33 seconds and in the year 9999 (legal unsigned integers)
+			c.Signers[rapid.IntRange(0, ns-1).Draw(t, "faridx")].DateOff = rapid.SampledFrom([]int64{1<<31 - 1 - baseDate, 1<<31 - baseDate - 3600, 1<<32 - baseDate - 3600, 1<<32 - baseDate, 1<<33 - baseDate, 253402300799 - 8*24*3600 - baseDate}).Draw(t, "fardate")
 		}
 		if c.Tamper.Kind == "auth-samekey-cert" {
 			c.Signers[0].Fixture = rapid.SampledFrom([]int{0, 3}).Draw(t, "samekeyfixture")
